@@ -120,6 +120,16 @@ class ArgumentTypeException(FunctionCallException):
         super().__init__(message)
 
 
+class UnsupportedNodeException(ODataException):
+    """
+    Thrown when a visitor encounters a type of node it cannot represent.
+    """
+
+    def __init__(self, node_type: str):
+        self.node_type = node_type
+        super().__init__(f"Nodes of type '{node_type}' are not supported.")
+
+
 class TypeException(ODataException):
     """
     Thrown when doing an invalid operation on a value.
